@@ -99,6 +99,8 @@ CONSTANTS
   NonPos <- NonPosSet
   Sims = {%(sims)s}
   BareUnseeded = %(bare)s
+  Styles = {%(styles)s}
+  MaxHistNew = %(maxhistnew)d
 INVARIANT Reproducible NonPosIgnored
 %(extra)s
 CHECK_DEADLOCK FALSE
@@ -113,25 +115,30 @@ def seed_part(ck, tier, scripts, expect):
     cfgp = os.path.join(ck.work, "seed.cfg")
     sims_h = sims
     open(cfgp, "w").write(SEED_CFG % dict(maxhist=maxhist, s1=s1, s2=s2, sims=", ".join('"%s"' % s for s in sims_h),
-                                          bare="FALSE", extra="ACTION_CONSTRAINT Emit"))
+                                          bare="FALSE", extra="ACTION_CONSTRAINT Emit", styles='"old", "new"',
+                                          maxhistnew=1 if tier == "quick" else 2))
     groups = collections.defaultdict(list)
     count = [0]
+    nstyle = collections.Counter()
 
     def on_emit(e):
         count[0] += 1
         sid = "h%d" % count[0]
         call = e["call"]
         calls = [hist_call(h) for h in e["hist"]]
+        if e["style"] == "new":
+            calls.insert(0, {"op": "setstyle", "old": False})
         if call["via"] == "global":
             calls.append({"op": "setseed", "seed": call["seed"]})
         obs = dict(sim_call(call["p"], call["seed"]))
         obs["capture"] = "hash"
         calls.append(obs)
         scripts.append({"id": sid, "calls": calls})
-        key = json.dumps([call["p"], e["stream"], e["stage2"]], sort_keys=True)
+        key = json.dumps([e["style"], call["p"], e["stream"], e["stage2"]], sort_keys=True)
         groups[key].append(sid)
         expect[sid] = {"part": "seed", "hist": e["hist"], "call": call, "stream": e["stream"], "seeded": e["seeded"],
-                       "key": key}
+                       "key": key, "style": e["style"]}
+        nstyle[e["style"]] += 1
 
     res = vlib.run_tlc("MC_SimSeed", cfgp, workers=min(vlib.NCPU, 6), on_emit=on_emit, timeout=3000)
     if res.violation:
@@ -139,13 +146,16 @@ def seed_part(ck, tier, scripts, expect):
     ck.add("states", res.distinct)
     ck.add("transitions", res.generated)
     ck.cov["seed_histories_scripts"] = count[0]
+    ck.cov["seed_scripts_by_generator_style"] = dict(nstyle)
+    if not nstyle["old"] or not nstyle["new"]:
+        raise Broken("vacuous: a generator style has no script")
     ck.cov["seed_stream_terms"] = len(groups)
     log("[C13] MC_SimSeed: %d states, %d scripts, %d distinct (simulator, stream term) in %.1fs" %
         (res.distinct, count[0], len(groups), res.wall))
     # the same model with the unseeded simulators observed bare: TLC must find the counterexample
     cfgb = os.path.join(ck.work, "seed_bare.cfg")
     open(cfgb, "w").write(SEED_CFG % dict(maxhist=1, s1=s1, s2=s2, sims=", ".join('"%s"' % s for s in sims),
-                                          bare="TRUE", extra=""))
+                                          bare="TRUE", extra="", styles='"old"', maxhistnew=0))
     resb = vlib.run_tlc("MC_SimSeed", cfgb, workers=1, timeout=600)
     if not resb.violation or "Reproducible is violated" not in resb.violation:
         raise Broken("expected TLC to refute Reproducible for a simulator observed without reseeding")
@@ -182,14 +192,14 @@ def judge_seed(ck, groups, expect, obs):
                 if ref in sids:
                     continue
                 e = expect[sids[0]]
-                ck.disagree({"kind": "not-reproducible", "simulator": e["call"]["p"], "seeded": e["seeded"],
+                ck.disagree({"kind": "not-reproducible", "simulator": e["call"]["p"], "seeded": e["seeded"], "generator": e["style"],
                              "via": e["call"]["via"], "history_ops": [x["op"] + ":" + x.get("p", "") for x in e["hist"]]},
-                            {"history": e["hist"], "call": e["call"], "stream_term": e["stream"],
+                            {"generator_style": e["style"], "history": e["hist"], "call": e["call"], "stream_term": e["stream"],
                              "same_stream_as": {"history": expect[ref]["hist"], "call": expect[ref]["call"]},
                              "outputs": [obs[sids[0]]["calls"][-1], obs[ref]["calls"][-1]]})
         e0 = expect[ids[0]]
         if e0["seeded"] and e0["stream"]["pos"] == [] and hashes:
-            fresh.setdefault(e0["call"]["p"], {})[e0["stream"]["base"]] = (list(hashes.keys())[0], ids[0])
+            fresh.setdefault(e0["style"] + ":" + e0["call"]["p"], {})[e0["stream"]["base"]] = (list(hashes.keys())[0], ids[0])
         if any(o_ for o_ in hashes if o_[1] != 0 or o_[2] == 0):
             ck.disagree({"kind": "call-failed", "simulator": e0["call"]["p"]}, {"history": e0["hist"], "call": e0["call"]})
     for p, byseed in fresh.items():
@@ -239,8 +249,9 @@ def hist_part(ck, tier, scripts, expect):
     what its request gives in a fresh process; per request: another seed and the ranks give other realisations."""
     s1, s2 = seeds()
     cfgp = os.path.join(ck.work, "hist.cfg")
-    open(cfgp, "w").write("SPECIFICATION Spec\nCONSTANTS\n  NBands = %d\nINVARIANT HistReproducible\n"
-                          "ACTION_CONSTRAINT Emit\nCHECK_DEADLOCK FALSE\n" % (2 if tier == "quick" else 3))
+    open(cfgp, "w").write("SPECIFICATION Spec\nCONSTANTS\n  NBands = %d\n  Styles = {\"old\", \"new\"}\n  FullNew = %s\n"
+                          "INVARIANT HistReproducible\nACTION_CONSTRAINT Emit\nCHECK_DEADLOCK FALSE\n" %
+                          (2 if tier == "quick" else 3, "FALSE" if tier == "quick" else "TRUE"))
     res = vlib.run_tlc("MC_SimHist", cfgp, workers=min(vlib.NCPU, 6), timeout=3000)
     if res.violation:
         raise Broken("SimHist.tla: the transcribed static memos violate HistReproducible (a refresh condition of the code "
@@ -249,6 +260,7 @@ def hist_part(ck, tier, scripts, expect):
     ck.add("transitions", res.generated)
     reqs = {}
     n = 0
+    nsty = collections.Counter()
     for e in res.emitted:
         if e.get("kind") != "aba":
             continue
@@ -256,16 +268,18 @@ def hist_part(ck, tier, scripts, expect):
             raise Broken("SimHist.tla emitted a pair it does not hold reproducible")
         n += 1
         sid = "a%d" % n
-        calls = []
+        calls = [{"op": "setstyle", "old": False}] if e["style"] == "new" else []
         cap = []
         for r in (e["a"], e["b"], e["a"]):
             cc = [dict(c) for c in req_calls(r, s1)]
             cc[-1]["capture"] = "hash"
             calls += cc
-            cap.append(json.dumps(r, sort_keys=True))
+            cap.append(e["style"] + "|" + json.dumps(r, sort_keys=True))
         scripts.append({"id": sid, "calls": calls})
-        expect[sid] = {"part": "aba", "a": e["a"], "b": e["b"], "keys": cap}
-        reqs[cap[0]] = e["a"]
+        expect[sid] = {"part": "aba", "a": e["a"], "b": e["b"], "keys": cap, "style": e["style"]}
+        nsty[e["style"]] += 1
+        if e["style"] == "old":
+            reqs[cap[0]] = e["a"]
     for i, (key, r) in enumerate(sorted(reqs.items())):
         c2 = [dict(c) for c in req_calls(r, s2)]
         c2[-1]["capture"] = "hash"
@@ -277,6 +291,9 @@ def hist_part(ck, tier, scripts, expect):
     structs = set(r["struct"] for r in reqs.values() if r["sim"] == "simtub")
     if len(structs) < 15:
         raise Broken("vacuous: the request catalogue does not cover the 15 basic structures of the turning bands")
+    if not nsty["new"]:
+        raise Broken("vacuous: no A,B,A sequence under the new-style generator")
+    ck.cov["hist_pairs_by_generator_style"] = dict(nsty)
     ck.cov["hist_requests"] = len(reqs)
     ck.cov["hist_pairs_ABA"] = n
     ck.cov["hist_tb_structures"] = sorted(structs)
@@ -298,7 +315,8 @@ def judge_hist(ck, expect, obs):
         for pos, (key, c) in enumerate(zip(ex["keys"], o["calls"])):
             sig = (c["hash"], c["err"], c["ncol"])
             if c["err"] != 0 or c["ncol"] == 0:
-                ck.disagree({"kind": "call-failed", "part": "history", "simulator": json.loads(key)["sim"], "struct": json.loads(key)["struct"]},
+                ck.disagree({"kind": "call-failed", "part": "history", "simulator": json.loads(key.split("|", 1)[1])["sim"],
+                             "struct": json.loads(key.split("|", 1)[1])["struct"]},
                             {"sequence": [ex["a"], ex["b"], ex["a"]], "position": pos + 1})
             allout[key].append((sig, sid, pos))
             if pos == 0:
@@ -317,9 +335,10 @@ def judge_hist(ck, expect, obs):
                 if tag in reported:
                     continue
                 reported.add(tag)
-                r = json.loads(key)
-                ck.disagree({"kind": "history-dependent", "simulator": r["sim"], "struct": r["struct"], "after": prev["sim"] + ":" + prev["struct"]},
-                            {"request": r, "sequence_executed_in_one_process": seq, "position_of_the_deviating_call": pos + 1,
+                r = json.loads(key.split("|", 1)[1])
+                ck.disagree({"kind": "history-dependent", "simulator": r["sim"], "struct": r["struct"], "after": prev["sim"] + ":" + prev["struct"],
+                             "generator": ex["style"]},
+                            {"generator_style": ex["style"], "request": r, "sequence_executed_in_one_process": seq, "position_of_the_deviating_call": pos + 1,
                              "output_hash": sig[0], "hash_in_a_fresh_process": ref[0],
                              "concrete_calls": [req_calls(x, seeds()[0]) for x in seq]})
     nreq = 0
@@ -443,6 +462,16 @@ def cond_part(ck, tier, scripts, expect):
                 if sim == "simtub-near":
                     call["data_dx"] = 2e-5
                 scripts.append({"id": sid, "trace": sim == "simtub", "calls": [call]})
+            elif sim == "simtub-mv":
+                nv = c["nvar"]
+                cut = (lambda rows: [r[:2 + nv] for r in rows])
+                base = {"op": "simtub", "cond": True, "nvar": nv, "model": "bivgau" if nv == 2 else "gau",
+                        "data_dx": e["dx_e6"] * 1e-6, "nbsimu": c["nbsimu"], "seed": c["seed"], "nbtuba": 20, "capture": "full"}
+                scripts.append({"id": sid + ".z", "trace": c["place"] == "exact", "calls": [dict(base, data=cut(e["data"]))]})
+                scripts.append({"id": sid + ".zd", "calls": [dict(base, data=cut(e["datasum"]))]})
+                scripts.append({"id": sid + ".k", "calls": [dict(base, data=cut(e["incr"]), krige=True)]})
+                if not e["cols_ok"]:
+                    raise Broken("SimCond.tla: the transcribed error columns of the multivariate conditioning are inconsistent")
             elif sim in ("simfft", "spde", "spdec", "simtub-nc"):
                 if sim == "simfft":
                     calls = [{"op": "simfft", "nbsimu": c["nbsimu"], "seed": c["seed"], "capture": "full"}]
@@ -483,7 +512,7 @@ def cond_part(ck, tier, scripts, expect):
                 if c["prop"] == "stat":     # the thresholds are known (0) for the stationary half/half proportions only
                     scripts.append({"id": sid + ".g", "calls": [dict(base, gaus=True)]})
             expect[sid] = {"part": "case", "e": e}
-    need = ["tgb-regular", "tgb-degenerate", "tgb-swapped", "simtub", "simtub-near", "simfft", "spde", "spdec", "simtub-nc",
+    need = ["simtub-mv", "tgb-regular", "tgb-degenerate", "tgb-swapped", "simtub", "simtub-near", "simfft", "spde", "spdec", "simtub-nc",
             "gibbs", "simpgs", "simbipgs", "gibbs-selection", "simpgs-selection", "simbipgs-selection",
             "simpgs-nonstat", "simbipgs-nonstat"]
     for k in need:
@@ -495,6 +524,8 @@ def cond_part(ck, tier, scripts, expect):
 
 TOL_EXACT = 1e-6      # conditioning: |sim - datum| <= TOL_EXACT * max(1, |datum|)  (kriging exact to ~1e-13 here)
 TOL_NEAR = 0.02       # smooth model, datum 2e-5 off the node: measured deviation <= 4e-5
+TOL_NEAR_MV = 0.1     # Gaussian model, datum 2e-4 mesh off the node: measured deviation <= 1e-3 (0.1 sigma demanded)
+TOL_LINEAR = 1e-6     # cond(Z + D) - cond(Z) = kriging(D): measured 1e-15
 TOL_BOUND = 1e-9      # bounds: rounding of yk + sk * x
 TOL_THRESH = 1e-4     # thresholds: invcdf(1/2) is computed by bisection (1e-7)
 
@@ -577,6 +608,50 @@ def judge_tb(ck, sid, ex, obs):
             for b in range(a + 1, len(cols)):
                 if cols[a] == cols[b]:
                     ck.disagree(dict(base, kind="ranks-not-distinct"), dict(replay, ranks=[a + 1, b + 1]))
+
+
+def judge_mv(ck, sid, ex, obs):
+    """Multivariate conditional turning bands: data reproduced (exactly on a node, within the continuity of the model
+    2e-4 mesh off it) for every variable and simulation; conditioning linear in the data: Z + D versus Z = kriging of D."""
+    e = ex["e"]
+    c = e["c"]
+    nv, nb = c["nvar"], c["nbsimu"]
+    base = {"simulator": "simtub", "nvar": nv, "nbsimu": nb, "place": c["place"]}
+    replay = {"call": "simtub(dbin with %d Z variables, dbout 5x5, model %s, NeighUnique, nbsimu=%d, seed=%d, nbtuba=20)" %
+                      (nv, "bivariate Gaussian(1.5; 1, 0.3, 0.3, 1)" if nv == 2 else "Gaussian(1.5, 1)", nb, c["seed"]),
+              "data_xy_z10": [r[:2 + nv] for r in e["data"]], "increment_D10": [r[:2 + nv] for r in e["incr"]],
+              "data_offset_x": e["dx_e6"] * 1e-6}
+    oz, ozd, ok = obs[sid + ".z"], obs[sid + ".zd"], obs[sid + ".k"]
+    for o in (oz, ozd, ok):
+        if "crash" in o:
+            ck.disagree(dict(base, kind="crash", signal=o["crash"]), replay)
+            return
+    cz, czd, ckr = oz["calls"][0], ozd["calls"][0], ok["calls"][0]
+    if cz["err"] or czd["err"] or ckr["err"] or cz["ncol"] != nv * nb or czd["ncol"] != nv * nb or ckr["ncol"] != nv:
+        ck.disagree(dict(base, kind="call-failed", ncol=cz["ncol"], ncol_krig=ckr["ncol"]), replay)
+        return
+    Z, ZD, K = columns(cz), columns(czd), columns(ckr)
+    tol = TOL_NEAR_MV if c["place"] == "near" else None
+    for iv in range(nv):
+        for isimu in range(nb):
+            col = Z[isimu + nb * iv]                 # Db::getSimRank: simulation + nbsimu * variable
+            for t, i in e["coincide"]:
+                z = e["data"][i - 1][2 + iv] / 10.0
+                v = col[t - 1]
+                lim = tol if tol is not None else TOL_EXACT * max(1.0, abs(z))
+                if v is None or abs(v - z) > lim:
+                    ck.disagree(dict(base, kind="near-datum" if tol else "cond-exact", variable=iv + 1),
+                                dict(replay, variable=iv + 1, rank=isimu + 1, target_index=t, datum=z, simulated=v))
+                    return
+            colD = ZD[isimu + nb * iv]
+            for t in range(len(col)):
+                dev = abs(colD[t] - col[t] - K[iv][t])
+                if dev > TOL_LINEAR * max(1.0, abs(K[iv][t])):
+                    ck.disagree(dict(base, kind="cond-not-linear", variable=iv + 1),
+                                dict(replay, variable=iv + 1, rank=isimu + 1, target_index=t + 1, sim_Z=col[t], sim_Z_plus_D=colD[t],
+                                     kriging_of_D=K[iv][t], deviation=dev))
+                    return
+    ck.add("mv_values_checked", nv * nb * 25)
 
 
 def judge_ranks(ck, sid, ex, obs):
@@ -756,6 +831,8 @@ def run(tier):
             sim = ex["e"]["c"]["sim"]
             if sim in ("simtub", "simtub-near"):
                 judge_tb(ck, sid, ex, obs)
+            elif sim == "simtub-mv":
+                judge_mv(ck, sid, ex, obs)
             elif sim in ("simfft", "spde", "spdec", "simtub-nc"):
                 judge_ranks(ck, sid, ex, obs)
             elif sim == "gibbs":
@@ -772,7 +849,8 @@ def run(tier):
     for sid in list(expect)[:: max(1, len(expect) // 5)][:5]:
         ex = expect[sid]
         ck.sample({"script": next(s for s in scripts if s["id"].split(".")[0] == sid), "expectation": {k: v for k, v in ex.items() if k != "key"}})
-    ck.assumptions += ["old-style generator (law_set_old_style never called): the stream is the process-wide LCG of Law.cpp",
+    ck.assumptions += ["both generator styles (law_set_old_style): every reproducibility obligation is replayed under the congruential generator "
+                       "and under std::mt19937; distinctness of ranks is demanded under the old style",
                        "bit-identical comparison only between runs of the same binary, OMP_NUM_THREADS=1",
                        "exactness of the conditioning is demanded with a unique neighbourhood and no measurement error "
                        "(the assumptions under which kriging is exact)",
@@ -822,6 +900,9 @@ def validate_trace(ck, tier, td, scripts, expect):
             hdr["nbsimu"] = c.get("nbsimu", 1)
             if c["sim"] == "simtub":
                 hdr["exact"] = c["model"] != "nugsph"
+                hdr["coincide"] = e["coincide"]
+            elif c["sim"] == "simtub-mv":
+                hdr["exact"] = True
                 hdr["coincide"] = e["coincide"]
             elif c["sim"] in ("simpgs", "simbipgs"):
                 hdr["ngrf"] = e["ngrf"]
